@@ -261,7 +261,7 @@ def run_cases(cases, deadline):
             p.stdin.write(json.dumps(c) + "\n")
             p.stdin.flush()
         t0 = time.time()
-        rl, _, _ = select.select([p.stdout], [], [], deadline * c.get("scale", 1.0))
+        rl, _, _ = select.select([p.stdout], [], [], deadline * c.get("allow", c.get("scale", 1.0)))
         line = p.stdout.readline() if rl else ""
         if not line:
             crashed = bool(rl)       # EOF: the child died (memory limit, fatal error)
@@ -415,7 +415,7 @@ def run(tier):
     # a case that did not answer in time is re-run alone (nothing else competing for the cores) with twice the allowance before it counts
     late = [c for c in cases if res[c["id"]].get("timeout") or res[c["id"]].get("crashed")]
     if late:
-        again = run_cases(late, 2 * K * TIMEOUT)
+        again = run_cases([dict(c, allow=max(c.get("scale", 1.0), 0.5)) for c in late], 2 * K * TIMEOUT)      # (the quarter-timeout family gets half the full allowance when re-run)
         for cid, o in again.items():
             o["retried"] = True
             res[cid] = o
